@@ -355,6 +355,11 @@ func (t *cliTr) Write(bs []byte) error {
 		b.rec.Log("Fault", "c", t.inc.c, "do", "failWrite", "on", kind)
 		return transport.ErrAlreadyClosed
 	}
+	// failWriteIO: the same, reported as a plain I/O error (EPIPE-like) instead of the transport's "closed" sentinel
+	if r := b.findRule(kind, t.inc.c, "failWriteIO"); r != nil {
+		b.rec.Log("Fault", "c", t.inc.c, "do", "failWriteIO", "on", kind)
+		return fmt.Errorf("write: broken pipe")
+	}
 	if r := b.findRule(kind, t.inc.c, "cutBefore"); r != nil {
 		b.rec.Log("Fault", "c", t.inc.c, "do", "cutBefore", "on", kind)
 		t.inc.cut("script")
